@@ -602,6 +602,7 @@ func (c *Chunker) buildSections(doc *model.Document) []*Section {
 						Page: pageIndex,
 						BBox: heading.BBox,
 					})
+					currentSection.PageEnd = pageIndex
 				} else {
 					// No section is open yet: the heading belongs to the preamble
 					preambleContent = append(preambleContent, ContentElement{
